@@ -29,10 +29,14 @@ Proof.
   intros H. unfold all_ok. apply forallb_forall. intros o Ho. rewrite Forall_forall in H. rewrite (H o Ho). reflexivity.
 Qed.
 
-Lemma c20_oracle_sound gn t c :
+(* (proved below, after the recognisers: see handle_p_no_panic) *)
+Section Early.
+  Hypothesis handle_p_no_panic_early : forall r, handle_p r <> HPanic.
+
+Lemma c20_oracle_sound_with gn t c :
   c20_valid gn t c -> c20_check t c = true -> c20_oracle gn t c = None.
 Proof.
-  destruct c as [reg0 g es obs|g sites es obs|site e obs|r o alloc h p lst|cc n|idn]; simpl.
+  destruct c as [reg0 g es obs|g sites es obs|site e obs|r o alloc h p lst ems|cc n|idn]; simpl.
   - reflexivity.
   - intros (gn' & -> & Hg & Hv & Hc). rewrite andb_true_iff. intros [Hi Ho].
     apply outcomes_eqb_eq in Ho. subst obs. subst gn'.
@@ -42,9 +46,46 @@ Proof.
   - intros Hc Hchk. destruct gn as [gn|]; [|discriminate]. simpl in Hc.
     destruct (find_row site t) as [r|] eqn:E; [|discriminate].
     unfold check in Hc. rewrite forallb_forall in Hc. rewrite (Hc r (find_row_In _ _ _ E)). reflexivity.
-  - intros [].
+  - (* a request: the check pins outcome class, health and progress to the model's prediction, and the model
+       never predicts a panic *)
+    intros _. rewrite !andb_true_iff. intros [[[[_ Hm] _] Hh] Hp]. subst h p.
+    pose proof (handle_p_no_panic_early r) as Hnp.
+    destruct (handle_p r); [| |contradiction]; destruct o; try discriminate; reflexivity.
   - reflexivity.
-  - intros -> _. reflexivity.
+  - intros _ ->. reflexivity.
+Qed.
+End Early.
+
+Lemma list_eqb_seqb_eq a b : list_eqb seqb a b = true -> a = b.
+Proof.
+  revert b; induction a as [|x a IH]; intros [|y b]; simpl; try discriminate; [reflexivity|].
+  rewrite andb_true_iff. intros [H1 H2]. apply seqb_eq in H1. subst. f_equal. apply IH; exact H2.
+Qed.
+
+Lemma c20_validb_sound gn t c : c20_validb gn t c = true -> c20_valid gn t c.
+Proof.
+  destruct c as [reg0 g es obs|g sites es obs|site e obs|r o alloc h p lst ems|cc n|idn]; simpl; try (intros; exact I).
+  - destruct gn as [gn'|]; [|discriminate]. rewrite !andb_true_iff. intros [[H1 H2] H3].
+    exists gn'. repeat split; try assumption.
+    + apply list_eqb_seqb_eq; exact H1.
+    + apply Forall_forall. intros v Hv. rewrite forallb_forall in H2. apply H2; exact Hv.
+  - intros H; exact H.
+Qed.
+
+(* every case a shard accepts (c20_check_covered) is within the scope of the soundness theorem, or the
+   oracle has already rejected it *)
+Lemma c20_covered_scope gn t c :
+  c20_check_covered gn t c = true -> c20_oracle gn t c = None -> c20_valid gn t c.
+Proof.
+  unfold c20_check_covered. rewrite andb_true_iff, orb_true_iff. intros [_ [Hv|Ho]] Hn.
+  - apply c20_validb_sound; exact Hv.
+  - rewrite Hn in Ho. discriminate.
+Qed.
+Lemma c20_check_covered_with_eq gn t c :
+  c20_check_covered_with (check_program gn t) gn t c = c20_check_covered gn t c.
+Proof.
+  unfold c20_check_covered_with, c20_check_covered. f_equal. f_equal.
+  destruct c; try reflexivity. simpl. destruct gn; reflexivity.
 Qed.
 
 (* what the watch server does on a client cancel, as transcribed: two Canceled responses for one watch
@@ -121,3 +162,56 @@ Proof.
     destruct p; try discriminate. destruct (ignore_lease || ignore_value || prev_kv); [discriminate|].
     intros H; injection H as <-; lia.
 Qed.
+
+(* ---------- explicit partial operations: the guards make them total ---------- *)
+
+Lemma txn_shape_p_total cmp succ fail : txn_shape_p cmp succ fail = PVal (txn_shape_of cmp succ fail).
+Proof.
+  unfold txn_shape_p, is_create_p, is_delete1_p, is_delete2_p, is_update_p, is_compact_p, txn_shape_of,
+    plen_is, pon, index.
+  destruct cmp as [|c [|c2 cmp]]; destruct succ as [|s1 [|s2 [|s3 succ]]]; destruct fail as [|f1 [|f2 fail]];
+    cbn [length Nat.eqb nth_error pand pbind];
+    repeat match goal with
+           | |- context [is_mod_equal ?c] => destruct (is_mod_equal c)
+           | |- context [(c_modrev ?c =? 0)%Z] => destruct (c_modrev c =? 0)%Z
+           | |- context [is_version_equal ?c] => destruct (is_version_equal c)
+           | |- context [is_put ?o] => destruct (is_put o)
+           | |- context [is_range ?o] => destruct (is_range o)
+           | |- context [is_delrange ?o] => destruct (is_delrange o)
+           | |- context [beqb ?a ?b] => destruct (beqb a b)
+           end; cbn [andb pand pbind]; reflexivity.
+Qed.
+
+Lemma handle_p_eq r : handle_p r = handle r.
+Proof. destruct r; try reflexivity. simpl. rewrite txn_shape_p_total. reflexivity. Qed.
+
+Lemma handle_p_no_panic r : handle_p r <> HPanic.
+Proof. rewrite handle_p_eq. apply handle_no_panic. Qed.
+
+(* List with any int64 limit over any number of matching keys: no slice or capacity panic, and the answer is
+   consistent with the limit *)
+Lemma list_exec_total limit found :
+  (min_int64 <= limit <= max_int64)%Z -> (0 <= found)%Z ->
+  exists n more, list_exec limit found = PVal (n, more) /\ list_response_ok limit n more = true /\
+                 (n <= found)%Z.
+Proof.
+  intros Hr Hf. unfold list_exec, list_response_ok. rewrite (list_limit_spec limit Hr).
+  destruct ((0 <? limit)%Z && (limit <? max_int64)%Z)%bool eqn:E.
+  - apply andb_true_iff in E as [E1 E2]. apply Z.ltb_lt in E1. apply Z.ltb_lt in E2.
+    cbn [make_cap pbind]. unfold max_cap. simpl (0 <=? 0)%Z. cbn [andb pbind].
+    destruct (Z.min found (limit + 1) >? limit)%Z eqn:G.
+    + apply Z.gtb_lt in G. unfold slice_to.
+      assert ((0 <=? limit)%Z && (limit <=? Z.min found (limit + 1))%Z = true)%bool as ->.
+      { apply andb_true_iff. split; apply Z.leb_le; lia. }
+      cbn [pbind]. exists limit, true. repeat split; [|lia].
+      rewrite Z.leb_refl, Z.eqb_refl. reflexivity.
+    + exists (Z.min found (limit + 1)), false. repeat split; [|lia].
+      assert (~ (limit < Z.min found (limit + 1))%Z).
+      { intros H. apply Z.gtb_lt in H. congruence. }
+      assert (Z.min found (limit + 1) <=? limit = true)%Z as -> by (apply Z.leb_le; lia). reflexivity.
+  - cbn [make_cap pbind]. simpl. exists found, false. repeat split; lia.
+Qed.
+
+(* oracle soundness for every case kind the driver emits; for request cases it rests on handle_p_no_panic *)
+Lemma c20_oracle_sound gn t c : c20_valid gn t c -> c20_check t c = true -> c20_oracle gn t c = None.
+Proof. exact (c20_oracle_sound_with handle_p_no_panic gn t c). Qed.
